@@ -107,8 +107,7 @@ Lemma mergeable_pruned : forall ks x y,
 Proof.
   intros ks x y Hx Hy. unfold prune1, mergeable.
   destruct (touches ks x), (touches ks y); cbn [negb andb]; rewrite ?Hx, ?Hy; cbn [andb];
-    try reflexivity.
-  rewrite andb_false_r. reflexivity.
+    reflexivity.
 Qed.
 
 Lemma no_merge_pruned : forall ks l, no_spv l ->
@@ -402,8 +401,8 @@ Proof.
   unfold receive, generate, wire. cbn [b_hdr b_txs b_hash].
   destruct (hv_eqb (h_merkle_root (b_hdr l)) hzero) eqn:E.
   - apply hv_eqb_eq in E. rewrite Hd in E. specialize (Hz E).
-    rewrite Hz in Hm. cbn [map length merge_loop] in Hm. inversion Hm; subst txs.
-    rewrite Ht. cbn [map]. unfold generate_merkle_root. cbn [b_txs bind orb].
+    rewrite Hz in Hm. cbn [map length merge_loop] in Hm. inversion Hm as [Hm'].
+    rewrite Ht, <- Hm'. cbn [map]. unfold generate_merkle_root. cbn [b_txs bind orb].
     eexists. split; [reflexivity|]. cbn [b_hash b_hdr].
     rewrite Hd. rewrite <- E at 1 2. rewrite set_merkle_root_same. split; [symmetry; exact Hh|reflexivity].
   - cbn [bind]. eexists. split; [reflexivity|]. cbn [b_hash b_hdr].
